@@ -24,7 +24,7 @@ def plan(tier, seed):
     shards = []
     for kind in ("soup", "hostile_moderate", "hostile_extreme", "validator", "convert_soup"):
         shards += [{"kind": kind, "seed": seed, "shard": i, "n": 300} for i in range(k)]
-    shards += [{"kind": "faults", "seed": seed, "shard": i, "n": 10} for i in range(12 if tier == "quick" else 300)]
+    shards += [{"kind": "faults", "seed": seed, "shard": i, "n": 10} for i in range(24 if tier == "quick" else 400)]
     return shards
 
 
